@@ -73,6 +73,16 @@ def ev_row(case, rec):
         inv.append((d, r, one, co))
     if not inv:
         return
+    # an unrelated forward conversion of ANOTHER ellipsoid and projection in between: the inverse results below must not
+    # depend on which conversion happened to run last in this process
+    other = ('intl24', 'utm') if case['ell'] != 'intl24' else ('grs80', 'p1')
+    rec.call(geo2grid, -12.3456789, 131.9876543, 0, ELLS[other[0]], PRJS[other[1]])
+    reinv = []
+    for (d, r, one, co) in inv:
+        st, r2 = rec.call(grid2geo, d['zone'], d['east'], d['north'], d['hemi'], ell, prj)
+        if st != 'ok' or tuple(r2) != tuple(r):
+            rec.fail('grid2geo returns different values after an unrelated conversion with another ellipsoid ran in between',
+                     site='convert:grid2geo:call-order', observed=r2, expected=list(r), case=one, coords=co)
     lat2 = np.array([r[0] for d, r, one, co in inv])
     dl2 = np.array([r[1] - d['cm'] for d, r, one, co in inv])
     _, _, k2, g2 = oracle_tm.forward_np(lat2, dl2, a, invf, k0)
